@@ -93,6 +93,13 @@ def cases_step(tier):
                 for inc in (False, True):
                     yield "%s/%s/tol=%s/plain/%s" % (what, "".join(k if k != "F0" else "f" for k in kinds), tol, "incumbent" if inc else "empty"), {
                         "what": what, "kinds": list(kinds), "tol": tol, "flip": False, "incumbent": inc}
+    # the tracker is reset (its "results" set to None, as between the runs of a plan) after it had tracked a result: what follows is
+    # judged as by a fresh tracker - nothing remembered of the earlier optimum, in whatever domain
+    for what in ("best", "last"):
+        for kinds in (("F",), ("F", "F")):
+            for flip in (False, True):
+                yield "%s/%s/tol=sym/%s/incumbent-then-reset" % (what, "".join(kinds), "transformed" if flip else "plain"), {
+                    "what": what, "kinds": list(kinds), "tol": "sym", "flip": flip, "incumbent": True, "reset": True}
     # the event type given as the plain integer of the enumeration (EventType is an IntEnum; Event does not convert): same event
     for what in ("best", "last"):
         for tname in ("int", "numpy-int"):
@@ -138,6 +145,9 @@ def scn_step(T, case):
         T.prove("C12.history.a_first_feasible_function_result_is_tracked", trk["results"] is inc_user)
         if trk["results"] is not inc_user:
             return
+        if case.get("reset"):
+            trk["results"] = None
+            m, inc_user, inc_opt = None, None, None
     user, opt, objs, viols = _results(T, "new", case["kinds"], case["flip"])
     data = {"results": user}
     if case["flip"]:
